@@ -32,13 +32,14 @@ static void record(TestReporter *reporter, const char *file, int line, int resul
 
 /* the names are prefixes of one another: an expectation is found by the whole name */
 static intptr_t f0(void) { return mock(); }
-static intptr_t f1(intptr_t a) { return mock(a); }
-static intptr_t f1_b(intptr_t a, intptr_t b) { return mock(a, b); }
-static intptr_t f1_bc(intptr_t a, intptr_t b, intptr_t c) { return mock(a, b, c); }
+static intptr_t f1(intptr_t a_b) { return mock(a_b); }
+/* parameter names that are prefixes of one another, in both orders */
+static intptr_t f1_b(intptr_t a_b, intptr_t a) { return mock(a_b, a); }
+static intptr_t f1_bc(intptr_t a_b, intptr_t a, intptr_t a_b_c) { return mock(a_b, a, a_b_c); }
 #define f2 f1_b
 #define f3 f1_bc
 static const char *fnames[4] = { "f0", "f1", "f1_b", "f1_bc" };
-static const char *pnames[3] = { "a", "b", "c" };
+static const char *pnames[3] = { "a_b", "a", "a_b_c" };
 
 typedef struct { int g; intptr_t a[3]; } SideCall;
 static SideCall side_pool[4096];
